@@ -484,7 +484,11 @@ func (c *Ctx) classifyMapRange(mr mapRange) (string, string) {
 			continue
 		}
 		if c.flowsToSort(call, mr) {
-			notes = append(notes, "collect-then-sort")
+			if why := c.sortKeyWeak(call, mr); why != "" {
+				problems = append(problems, why)
+			} else {
+				notes = append(notes, "collect-then-sort")
+			}
 		} else if c.onlyLenUsed(call) {
 			notes = append(notes, "only counted")
 		} else {
@@ -914,4 +918,111 @@ func indexStoreSorted(c *Ctx, st *ssa.Store, mr mapRange) bool {
 		}
 	}
 	return sorted
+}
+
+// sortKeyWeak: the slice collected in map order is sorted with a comparator that looks at a single key which is
+// not the map key: elements that tie on it keep the order the map yielded them in. "" if the sort is adequate
+// (sort.Strings/Ints of collected keys, a comparator that reads the component holding the range key, or one with
+// a tie-break, i.e. at least two ordering comparisons).
+func (c *Ctx) sortKeyWeak(app *ssa.Call, mr mapRange) string {
+	key, _ := mr.keyVal()
+	// which fields of the appended element hold the range key
+	keyFields := map[int]bool{}
+	wholeIsKey := false
+	for _, el := range variadicElems(app.Call.Args[1]) {
+		if key != nil && (el == key || derivesFrom(el, func(x ssa.Value) bool { return x == key })) {
+			if _, isSt := el.Type().Underlying().(*types.Struct); !isSt {
+				wholeIsKey = true
+			}
+		}
+		// struct literal: loads of a local struct whose fields were stored
+		backSlice(el, func(x ssa.Value) bool {
+			if al, isA := x.(*ssa.Alloc); isA {
+				for _, r := range refsOf(al) {
+					fa, isF := r.(*ssa.FieldAddr)
+					if !isF {
+						continue
+					}
+					for _, rr := range refsOf(fa) {
+						if st, isS := rr.(*ssa.Store); isS && st.Addr == ssa.Value(fa) && key != nil && derivesFrom(st.Val, func(y ssa.Value) bool { return y == key }) {
+							keyFields[fa.Field] = true
+						}
+					}
+				}
+			}
+			return true
+		})
+	}
+	if wholeIsKey {
+		return ""
+	}
+	// the sort call(s) the slice flows to
+	weak := ""
+	web := map[ssa.Value]bool{}
+	var grow func(v ssa.Value, d int)
+	grow = func(v ssa.Value, d int) {
+		if v == nil || web[v] || d > 16 {
+			return
+		}
+		web[v] = true
+		for _, r := range refsOf(v) {
+			switch x := r.(type) {
+			case *ssa.Phi:
+				grow(x, d+1)
+			case *ssa.Call:
+				if bi, ok := x.Call.Value.(*ssa.Builtin); ok && bi.Name() == "append" && x.Call.Args[0] == v {
+					grow(x, d+1)
+				}
+			case *ssa.MakeInterface, *ssa.ChangeType, *ssa.Convert:
+				grow(x.(ssa.Value), d+1)
+			case *ssa.Store:
+				if a, ok := x.Addr.(*ssa.Alloc); ok && x.Val == v {
+					for _, rr := range refsOf(a) {
+						if u, oku := rr.(*ssa.UnOp); oku {
+							grow(u, d+1)
+						}
+					}
+				}
+			}
+		}
+	}
+	grow(app, 0)
+	for v := range web {
+		for _, r := range refsOf(v) {
+			call, isC := r.(*ssa.Call)
+			if !isC || !(calleeIs(call, "sort", "Slice") || calleeIs(call, "sort", "SliceStable")) || len(call.Call.Args) < 2 {
+				continue
+			}
+			mc, isMC := call.Call.Args[1].(*ssa.MakeClosure)
+			if !isMC {
+				continue
+			}
+			less, _ := mc.Fn.(*ssa.Function)
+			if less == nil {
+				continue
+			}
+			levels, readsKey := 0, false
+			eachInstr(less, func(in ssa.Instruction) {
+				switch x := in.(type) {
+				case *ssa.BinOp:
+					switch x.Op {
+					case token.LSS, token.GTR, token.LEQ, token.GEQ:
+						levels++
+					}
+				case *ssa.FieldAddr:
+					if keyFields[x.Field] {
+						readsKey = true
+					}
+				case *ssa.Field:
+					if keyFields[x.Field] {
+						readsKey = true
+					}
+				}
+			})
+			if levels <= 1 && !readsKey {
+				weak = "a slice filled in map order is sorted by a single key that is not the map key: elements that tie on it keep the order the map yielded them in @ " + c.InstrPos(call)
+			}
+		}
+	}
+	return weak
 }
